@@ -137,6 +137,13 @@ func (c *Ctx) discharge(p *Prover, ob obligation) (bool, string) {
 	case "close":
 		ch := ob.In.(*ssa.Call).Call.Args[0]
 		mk, ok := ch.(*ssa.MakeChan)
+		if !ok {
+			// the "stop function" idiom: a closure that closes a channel its parent made, handed back to the one
+			// caller of the parent, which calls it once
+			if okS, whyS := c.stopFuncClose(ob.In, ch); okS {
+				return true, whyS
+			}
+		}
 		if !ok || mk.Parent() != ob.In.Parent() {
 			return false, "closed channel is not a channel made in this call"
 		}
@@ -1120,4 +1127,132 @@ func (c *Ctx) consumingLoopsRule(rule string, p *Prover) {
 		}
 	}
 	r.Floor(rule, "self-consuming loops in the splitting code", n, 1)
+}
+
+// stopFuncClose: close(fv) in a closure F with fv a free variable bound, in the
+// parent P, to a channel P makes; the closure's only use in P is being
+// returned; every caller of P uses that result only by calling it, outside
+// loops and once on any path; nothing sends on the channel.
+func (c *Ctx) stopFuncClose(in ssa.Instruction, ch ssa.Value) (bool, string) {
+	// captured variables are cells: the closure loads the channel from the free variable
+	if u, isU := ch.(*ssa.UnOp); isU && u.Op == token.MUL {
+		ch = u.X
+	}
+	fv, ok := ch.(*ssa.FreeVar)
+	if !ok {
+		return false, ""
+	}
+	f := in.Parent()
+	par := f.Parent()
+	if par == nil {
+		return false, ""
+	}
+	// exactly this one close in the closure, outside loops
+	if c.LoopDepth(in.Block()) != 0 {
+		return false, ""
+	}
+	idx := -1
+	for i, q := range f.FreeVars {
+		if q == fv {
+			idx = i
+		}
+	}
+	var mc *ssa.MakeClosure
+	n := 0
+	funcInstrs(par, func(x ssa.Instruction) {
+		if m, isM := x.(*ssa.MakeClosure); isM && m.Fn == ssa.Value(f) {
+			mc = m
+			n++
+		}
+	})
+	if n != 1 || idx < 0 || idx >= len(mc.Bindings) {
+		return false, ""
+	}
+	bnd := mc.Bindings[idx]
+	if cell, isCell := bnd.(*ssa.Alloc); isCell && cell.Parent() == par {
+		// the variable's cell: written exactly once, with the channel
+		var st *ssa.Store
+		nSt := 0
+		for _, ref := range *cell.Referrers() {
+			if s2, isS := ref.(*ssa.Store); isS && s2.Addr == ssa.Value(cell) {
+				st = s2
+				nSt++
+			}
+		}
+		if nSt != 1 {
+			return false, ""
+		}
+		bnd = st.Val
+		// no other closure may close or replace it: cell uses are this binding, the store and loads
+		for _, ref := range *cell.Referrers() {
+			switch t := ref.(type) {
+			case *ssa.Store, *ssa.DebugRef:
+			case *ssa.UnOp:
+				for _, r2 := range *t.Referrers() {
+					if cl, isC := r2.(*ssa.Call); isC {
+						if b, isB := cl.Call.Value.(*ssa.Builtin); isB && b.Name() == "close" {
+							return false, ""
+						}
+					}
+				}
+			case *ssa.MakeClosure:
+				if t != mc {
+					return false, ""
+				}
+			default:
+				return false, ""
+			}
+		}
+	}
+	mk, isMk := bnd.(*ssa.MakeChan)
+	if !isMk || mk.Parent() != par || c.LoopDepth(mc.Block()) != 0 {
+		return false, ""
+	}
+	for _, op := range ChanOps(par) {
+		if op.Kind == "send" && op.Chan == ssa.Value(mk) {
+			return false, ""
+		}
+	}
+	for _, ref := range *mc.Referrers() {
+		switch ref.(type) {
+		case *ssa.Return, *ssa.DebugRef:
+		default:
+			return false, ""
+		}
+	}
+	// other closures / goroutines of P may receive from the channel, not close it
+	for _, ref := range *mk.Referrers() {
+		if cl, isC := ref.(*ssa.Call); isC {
+			if b, isB := cl.Call.Value.(*ssa.Builtin); isB && b.Name() == "close" {
+				return false, ""
+			}
+		}
+	}
+	sites := c.staticCallers(par)
+	if len(sites) == 0 || addrTaken(par) {
+		return false, ""
+	}
+	for _, cs := range sites {
+		v, isV := cs.(*ssa.Call)
+		if !isV {
+			return false, ""
+		}
+		calls := 0
+		for _, ref := range *v.Referrers() {
+			switch t := ref.(type) {
+			case *ssa.DebugRef:
+			case *ssa.Call:
+				if t.Call.Value != ssa.Value(v) || c.LoopDepth(t.Block()) != 0 || ReachFrom(t, false, nil)[t] {
+					return false, ""
+				}
+				calls++
+			default:
+				return false, ""
+			}
+		}
+		if calls != 1 {
+			return false, ""
+		}
+	}
+	return true, "stop function: closes the channel its parent made; its one caller invokes it once"
 }
